@@ -449,6 +449,34 @@ pub fn check_quiescent_stats(sut: &Sut, logs: &[OpRec], counts: &mut Counts, fin
     counts.add("concurrent_lookups_counted", lookups);
 }
 
+/// Capacity probe (C03 / C06): at a quiescent point of a small cache, a put that exactly fills the cache according to the
+/// weights really held must be accepted without evicting anything. Weight that is wrongly kept charged shows up here as
+/// spurious rejection or loss.
+pub fn capacity_probe(sut: &Sut, context: &str, counts: &mut Counts, findings: &mut Vec<Finding>, witness: J) {
+    let snapshot = sut.snapshot();
+    if snapshot.max_weight > 10_000 { return; }
+    let held: i64 = snapshot.stored.iter().filter_map(|(_, id, _, _)| snapshot.charged.iter().find(|c| c.0 == *id).map(|c| c.3)).sum();
+    let room = snapshot.max_weight - held;
+    if room <= 0 { return; }
+    let before: BTreeSet<u64> = snapshot.stored.iter().map(|e| e.0).collect();
+    let mut probe = Client::new(97);
+    let value = probe.token(9_999);
+    probe.write(&sut.cache, WriteOp::PutW { key: 9_999, value, weight: room });
+    probe.settle_all(&sut.marks);
+    counts.inc("capacity_probes");
+    let status = match &probe.log.last().unwrap().outcome { Outcome::Write { status: Some(Waited::Ready(s)), .. } => Some(*s), _ => None };
+    let after: BTreeSet<u64> = sut.snapshot().stored.iter().map(|e| e.0).collect();
+    let lost: Vec<u64> = before.difference(&after).copied().collect();
+    if status != Some(CommandStatus::Accepted) || !lost.is_empty() {
+        findings.push(Finding { props: vec!["C03", "C06", "C05"], signature: format!("C03/capacity-lost/{}", context),
+            detail: format!("the keys held weigh {} of {}; a put of weight {} (an exact fit) was answered {:?} and evicted {:?}: capacity is silently lost", held, snapshot.max_weight, room, status.map(|s| status_name(&s)), lost),
+            witness, inconclusive: false });
+    }
+    // leave the cache as it was
+    probe.write(&sut.cache, WriteOp::Delete { key: 9_999 });
+    probe.settle_all(&sut.marks);
+}
+
 // ------------------------------------------------------------------------------------------------ scenario plumbing
 
 pub struct CaseOut {
@@ -528,7 +556,7 @@ fn mixed_cfg(focus: &str, seed: u64, index: u64, clean: bool) -> MixedCfg {
     let keys = rng.range(1, 8);
     let pressure = match focus { "C03" => false, _ => rng.chance(1, 2) };
     let weight_mode = if rng.chance(1, 2) { WeightMode::Default } else { WeightMode::Custom };
-    let clean_weights = clean || focus != "C01" || rng.chance(1, 2);
+    let clean_weights = clean || !matches!(focus, "C01" | "C05") || rng.chance(1, 2);
     let max_weight = if pressure {
         if clean_weights { rng.range(60, 300) as i64 } else { match weight_mode { WeightMode::Default => rng.range(120, 500) as i64, WeightMode::Custom => rng.range(30, 150) as i64 } }
     } else { 1_000_000 };
@@ -759,7 +787,7 @@ fn run_same_key(focus: &'static str, seed: u64, index: u64) -> CaseOut {
     let mut counts = Counts::default();
     let mut findings = Vec::new();
     let sutcfg = SutCfg {
-        counters: 100, capacity: 16, max_weight: *rng.pick(&[1000i64, 100_000, 150]), shards: 2, cmd_buf: *rng.pick(&[2usize, 8, 64]), pool: 1, buf: 2,
+        counters: 100, capacity: 16, max_weight: *rng.pick(&[1000i64, 100_000, 150, 400]), shards: 2, cmd_buf: *rng.pick(&[2usize, 8, 64]), pool: 1, buf: 2,
         tick: Duration::from_millis(1), weight_mode: if rng.chance(1, 2) { WeightMode::Default } else { WeightMode::Custom }, hash_mode: HashMode::Default, start_ns: rt::START_NS,
     };
     let with_ttl = rng.chance(1, 2);
@@ -867,6 +895,8 @@ fn run_same_key(focus: &'static str, seed: u64, index: u64) -> CaseOut {
     } else {
         let context = format!("same-key/variant={}", variant);
         check_quiescent_accounting(&sut, &context, &mut counts, &mut findings, witness(&all));
+        capacity_probe(&sut, &context, &mut counts, &mut findings, witness(&all));
+        let _ = sut.quiesce();
         let mut client = Client::new(99);
         client.write(&sut.cache, WriteOp::Delete { key });
         client.settle_all(&marks);
@@ -1434,7 +1464,7 @@ fn run_held_client(focus: &'static str, seed: u64, index: u64) -> CaseOut {
                 let charged = snapshot.stored.iter().find(|e| e.0 == key).and_then(|e| sut.cache.verif_charged_weight(e.1));
                 counts.inc("pipelined_upsert_bursts_checked");
                 if charged != Some(expected) {
-                    findings.push(Finding { props: vec!["C08", "C05"], signature: "C08/charged-weight-differs-after-pipelined-upserts".into(),
+                    findings.push(Finding { props: vec!["C08", "C05", "C11"], signature: "C08/charged-weight-differs-after-pipelined-upserts".into(),
                         detail: format!("a burst of un-awaited explicit-weight upserts of key {} ended with weight {} (all acknowledged Accepted) but the key is charged {:?}", key, expected, charged),
                         witness: witness(&all), inconclusive: false });
                 }
